@@ -146,16 +146,295 @@ Proof.
             = Ok (rev acc ++ b :: l)).
     { rewrite (IH sk' vc' png' icon' y tail (b :: acc) fuel Cl Tl Nl Wr); [|cbn in F; lia].
       cbn [rev]. rewrite <- app_assoc. reflexivity. }
-    destruct b as [si|n|a|pts|v|c|pic]; try contradiction.
-    + injection Fl as -> -> -> ->. exact IH'.
-    + injection Fl as -> -> -> ->. exact IH'.
-    + destruct Fl as [-> Fl]. injection Fl as -> -> -> ->. cbn [negb]. exact IH'.
-    + destruct Fl as [-> Fl]. injection Fl as -> -> -> ->. cbn [negb]. exact IH'.
-    + injection Fl as -> -> -> ->. exact IH'.
-    + destruct (pic_type pic =? 1).
-      * destruct Fl as [-> Fl]. injection Fl as -> -> -> ->. cbn [negb]. exact IH'.
-      * destruct (pic_type pic =? 2).
-        -- destruct Fl as [-> Fl]. injection Fl as -> -> -> ->. cbn [negb]. exact IH'.
-        -- injection Fl as -> -> -> ->. exact IH'.
+    destruct b as [si|n|a|pts|v|c|pic]; try contradiction;
+      repeat match goal with
+             | |- context [pic_type ?q =? ?k] => destruct (pic_type q =? k)
+             end;
+      match type of Fl with _ /\ _ => destruct Fl as [-> Fl] | _ => idtac end;
+      injection Fl as -> -> -> ->; cbn [negb]; exact IH'.
+Qed.
+
+Lemma write_rest_length : forall l sk vc png icon bs, write_rest sk vc png icon l = Ok bs ->
+  (length l <= length bs)%nat.
+Proof.
+  induction l as [|b l IH]; intros sk vc png icon bs W; [cbn; lia|].
+  apply write_rest_cons in W. destruct W as (x & y & sk' & vc' & png' & icon' & Wb & Wr & -> & _).
+  apply write_block_length in Wb. apply IH in Wr. rewrite app_length. cbn [length]. lia.
+Qed.
+
+Lemma take_tag rest : take 4 (FLAC_TAG ++ rest) = Ok (FLAC_TAG, rest).
+Proof. apply take_app_len. reflexivity. Qed.
+
+Theorem write_blocks_read_blocks l bs tail :
+  Forall covered l -> Forall ty_block l -> Forall canon_block l ->
+  write_blocks l = Ok bs -> read_blocks utf8_valid (bs ++ tail) = Ok l.
+Proof.
+  intros Cv T C W. unfold write_blocks in W.
+  destruct l as [|b r]; [discriminate|]. destruct b as [si| | | | | |]; try discriminate.
+  destruct (write_block (match r with [] => true | _ => false end) (BStreaminfo si)) as [x| |] eqn:Wb;
+    cbn [bind] in W; try discriminate.
+  destruct (write_rest false false false false r) as [y| |] eqn:Wr; cbn [bind] in W; try discriminate.
+  apply Ok_inj in W. subst bs.
+  inversion Cv as [|? ? Cb Cl]; inversion T as [|? ? Tb Tl]; inversion C as [|? ? Nb Nl]; subst.
+  unfold read_blocks. rewrite <- !app_assoc. cbn [collect].
+  unfold iter_next, iter_new. cbn [it_failed it_tag_read it_reader negb].
+  rewrite take_tag. cbn [forallb combine FLAC_TAG fst snd N.eqb Pos.eqb andb].
+  cbn [it_failed it_tag_read it_streaminfo_read it_seektable_read it_vorbiscomment_read it_png_read it_icon_read it_finished it_reader].
+  unfold next_tagged. cbn [it_streaminfo_read negb]. unfold it_read_block. cbn [it_finished it_reader].
+  rewrite (block_write_read _ _ x (y ++ tail) Cb Tb Nb Wb).
+  cbn [it_failed it_tag_read it_streaminfo_read it_seektable_read it_vorbiscomment_read it_png_read it_icon_read it_finished it_reader].
+  rewrite (collect_write_rest r false false false false y tail [BStreaminfo si] _ Cl Tl Nl Wr).
+  - reflexivity.
+  - apply write_rest_length in Wr. rewrite !app_length. cbn [length FLAC_TAG]. lia.
+Qed.
+
+(* ---- the reverse direction *)
+Lemma collect_inv : forall fuel s sk vc png icon fin acc out,
+  Forall byte s ->
+  collect utf8_valid fuel (mkIter s false true true sk vc png icon fin) acc = Ok out ->
+  exists l, out = rev acc ++ l /\ fin = match l with [] => true | _ => false end /\
+    (Forall covered l ->
+       Forall ty_block l /\ Forall canon_block l /\ exists bs', write_rest sk vc png icon l = Ok bs').
+Proof.
+  induction fuel as [|f0 fuel IH]; intros s sk vc png icon fin acc out Hs H.
+  - cbn [collect] in H. unfold iter_next in H. cbn [it_failed it_tag_read negb] in H.
+    unfold next_tagged in H. cbn [it_streaminfo_read negb] in H. unfold it_read_block in H.
+    cbn [it_finished it_reader] in H.
+    destruct fin.
+    + apply Ok_inj in H. subst out. exists []. rewrite app_nil_r. split; [reflexivity|]. split; [reflexivity|].
+      intros _. split; [constructor|]. split; [constructor|]. exists []. reflexivity.
+    + destruct (read_block utf8_valid s) as [[[last b] rest]| |]; [|discriminate|discriminate].
+      destruct b as [si|n|a|pts|v|c|pic];
+        cbn [it_failed it_tag_read it_streaminfo_read it_seektable_read it_vorbiscomment_read it_png_read it_icon_read it_finished it_reader] in H;
+        repeat match type of H with
+               | context [pic_type ?q =? ?k] => destruct (pic_type q =? k)
+               | context [negb ?f] => destruct f; cbn [negb] in H
+               end; discriminate.
+  - cbn [collect] in H. unfold iter_next in H. cbn [it_failed it_tag_read negb] in H.
+    unfold next_tagged in H. cbn [it_streaminfo_read negb] in H. unfold it_read_block in H.
+    cbn [it_finished it_reader] in H.
+    destruct fin.
+    + apply Ok_inj in H. subst out. exists []. rewrite app_nil_r. split; [reflexivity|]. split; [reflexivity|].
+      intros _. split; [constructor|]. split; [constructor|]. exists []. reflexivity.
+    + destruct (read_block utf8_valid s) as [[[last b] rest]| |] eqn:RB; [|discriminate|discriminate].
+      assert (Step : forall sk' vc' png' icon',
+        collect utf8_valid fuel (mkIter rest false true true sk' vc' png' icon' last) (b :: acc) = Ok out ->
+        write_rest sk vc png icon (b :: nil) <> Err EOther \/ True ->
+        (forall l bs', covered b -> write_block (match l with [] => true | _ => false end) b = Ok bs' ->
+                       forall y, write_rest sk' vc' png' icon' l = Ok y ->
+                       exists z, write_rest sk vc png icon (b :: l) = Ok z) ->
+        exists l, out = rev acc ++ l /\ false = match l with [] => true | _ => false end /\
+          (Forall covered l -> Forall ty_block l /\ Forall canon_block l /\ exists bs', write_rest sk vc png icon l = Ok bs')).
+      { intros sk' vc' png' icon' Hc _ Hw.
+        assert (Hrest : covered b -> Forall byte rest).
+        { intros Cb. pose proof (read_block_inv s last b rest Hs RB Cb). tauto. }
+        (* the tail of the stream is bytes regardless of coverage *)
+        assert (Hrest' : Forall byte rest).
+        { unfold read_block in RB. destruct (read_header s) as [[h s1]| |] eqn:RH; try discriminate.
+          apply read_header_inv in RH; [|exact Hs]. destruct RH as [-> _]. apply Forall_app_r in Hs.
+          destruct (read_body utf8_valid (h_type h) (h_size h) (takeN (h_size h) s1)) as [[b' lo]| |]; try discriminate.
+          destruct (h_size h - (lenN (takeN (h_size h) s1) - lenN lo) =? 0); [|discriminate].
+          apply Ok_inj in RB. injection RB as _ _ <-.
+          rewrite <- (takeN_dropN (h_size h) s1) in Hs. eapply Forall_app_r. exact Hs. }
+        apply IH in Hc; [|exact Hrest']. destruct Hc as (l & -> & Hfin & Hl).
+        exists (b :: l). cbn [rev]. rewrite <- app_assoc. split; [reflexivity|]. split; [reflexivity|].
+        intros Cv. pose proof (Forall_inv Cv) as Cb. pose proof (Forall_inv_tail Cv) as Cl.
+        destruct (Hl Cl) as (Tl & Nl & y & Wy).
+        destruct (read_block_inv s last b rest Hs RB Cb) as (Tb & Nb & _ & _ & bs' & Wb & _).
+        split; [constructor; assumption|]. split; [constructor; assumption|].
+        rewrite Hfin in Wb. eapply Hw; eauto. }
+      destruct b as [si|n|a|pts|v|c|pic];
+        cbn [it_failed it_tag_read it_streaminfo_read it_seektable_read it_vorbiscomment_read it_png_read it_icon_read it_finished it_reader] in H;
+        repeat match type of H with
+               | context [pic_type ?q =? ?k] => destruct (pic_type q =? k) eqn:?
+               | context [negb ?f] => destruct f; cbn [negb] in H
+               end; try discriminate;
+        (eapply Step; [exact H|right; exact I|]);
+        intros l bs' Cb Wb y Wy; cbn [write_rest];
+        repeat match goal with
+               | E : (pic_type ?q =? ?k) = _ |- _ => rewrite E; clear E
+               end;
+        rewrite Wb, Wy; cbn [bind]; eauto.
+Qed.
+
+Lemma tag_check_eq tag : lenN tag = 4 ->
+  forallb (fun ab : N * N => fst ab =? snd ab) (combine tag FLAC_TAG) = true -> tag = FLAC_TAG.
+Proof.
+  intros L H. destruct tag as [|a [|b [|c [|d [|e t]]]]]; cbn [lenN] in L; try lia.
+  cbn [combine FLAC_TAG forallb fst snd] in H.
+  repeat (apply andb_prop in H; destruct H as [? H]).
+  repeat match goal with E : (_ =? _) = true |- _ => apply N.eqb_eq in E end. subst. reflexivity.
+Qed.
+
+Theorem read_blocks_write_blocks bs l : Forall byte bs ->
+  read_blocks utf8_valid bs = Ok l -> Forall covered l ->
+  Forall ty_block l /\ Forall canon_block l /\
+  exists bs', write_blocks l = Ok bs' /\ read_blocks utf8_valid bs' = Ok l.
+Proof.
+  intros Hs H Cv. unfold read_blocks in H. cbn [collect] in H.
+  unfold iter_next, iter_new in H. cbn [it_failed it_tag_read it_reader negb] in H.
+  destruct (take 4 bs) as [[tag rest]| |] eqn:TK; [|discriminate|discriminate].
+  apply take_ok in TK. destruct TK as [-> Lt]. pose proof (Forall_app_r _ _ _ Hs) as Hr.
+  destruct (forallb (fun ab : N * N => fst ab =? snd ab) (combine tag FLAC_TAG)) eqn:TG; [|discriminate].
+  unfold next_tagged in H. cbn [it_streaminfo_read negb] in H. unfold it_read_block in H.
+  cbn [it_finished it_reader] in H.
+  destruct (read_block utf8_valid rest) as [[[last b] rest']| |] eqn:RB; [|discriminate|discriminate].
+  destruct b as [si| | | | | |]; try discriminate.
+  cbn [it_failed it_tag_read it_streaminfo_read it_seektable_read it_vorbiscomment_read it_png_read it_icon_read it_finished it_reader] in H.
+  destruct (read_block_inv rest last (BStreaminfo si) rest' Hr RB I) as (Tb & Nb & Hr' & _ & x & Wx & _).
+  apply collect_inv in H; [|exact Hr']. destruct H as (l' & -> & Hfin & Hl).
+  cbn [rev app] in *. pose proof (Forall_inv_tail Cv) as Cl. destruct (Hl Cl) as (Tl & Nl & y & Wy).
+  assert (W : write_blocks (BStreaminfo si :: l') = Ok (FLAC_TAG ++ x ++ y)).
+  { unfold write_blocks. rewrite <- Hfin, Wx, Wy. reflexivity. }
+  split; [constructor; assumption|]. split; [constructor; assumption|].
+  eexists. split; [exact W|].
+  rewrite <- (app_nil_r (FLAC_TAG ++ x ++ y)).
+  apply write_blocks_read_blocks; try exact W; try (constructor; assumption). exact Cv.
+Qed.
+
+(* ---- writers never panic on typed values; rule-breaking lists are refused *)
+Lemma write_body_no_panic b : covered b -> ty_block b -> is_panic (write_body b) = false.
+Proof.
+  intros Cv T. destruct b as [si|n|a|l|v|c|x]; try contradiction; cbn [write_body ty_block] in *.
+  - unfold write_streaminfo. destruct T as (_ & _ & _ & _ & _ & _ & [T7 T7'] & _).
+    repeat match goal with |- context [if ?c then _ else _] => destruct c; [reflexivity|] end.
+    unfold bitcount_checked_sub.
+    destruct (N.leb_spec 1 (si_bps si)); [|lia]. destruct (N.leb_spec (si_bps si - 1) 31); [|lia].
+    destruct (negb _); reflexivity.
+  - reflexivity.
+  - reflexivity.
+  - unfold write_seektable. pose proof (check_seekpoints_spec l None) as H.
+    destruct (write_seekpoints None l); [reflexivity|reflexivity|contradiction].
+Qed.
+
+Lemma write_block_no_panic last b : covered b -> ty_block b -> is_panic (write_block last b) = false.
+Proof.
+  intros Cv T. unfold write_block. pose proof (body_size_write b Cv T) as S.
+  pose proof (write_body_no_panic b Cv T) as P.
+  destruct (write_body b) as [body|e|k]; [|destruct S as [e' S]|discriminate]; rewrite S; cbn [bind]; [|reflexivity].
+  destruct (BLOCKSIZE_MAX <? lenN body); reflexivity.
+Qed.
+
+Lemma write_rest_no_panic : forall l sk vc png icon, Forall covered l -> Forall ty_block l ->
+  is_panic (write_rest sk vc png icon l) = false.
+Proof.
+  induction l as [|b l IH]; intros sk vc png icon Cv T; [reflexivity|].
+  pose proof (Forall_inv Cv) as Cb. pose proof (Forall_inv_tail Cv) as Cl.
+  pose proof (Forall_inv T) as Tb. pose proof (Forall_inv_tail T) as Tl.
+  assert (G : forall sk' vc' png' icon',
+    is_panic (x <- write_block (match l with [] => true | _ => false end) b ;;
+              y <- write_rest sk' vc' png' icon' l ;; Ok (x ++ y))%res = false).
+  { intros. pose proof (write_block_no_panic (match l with [] => true | _ => false end) b Cb Tb) as P.
+    destruct (write_block _ b); try discriminate; cbn [bind]; [|reflexivity].
+    pose proof (IH sk' vc' png' icon' Cl Tl) as Q. destruct (write_rest sk' vc' png' icon' l); try discriminate; reflexivity. }
+  cbn [write_rest]. destruct b; try reflexivity; try apply G;
+    repeat match goal with |- context [if ?c then _ else _] => destruct c end; try reflexivity; apply G.
+Qed.
+
+Theorem write_blocks_no_panic l : Forall covered l -> Forall ty_block l -> is_panic (write_blocks l) = false.
+Proof.
+  intros Cv T. unfold write_blocks. destruct l as [|b r]; [reflexivity|]. destruct b; try reflexivity.
+  pose proof (write_block_no_panic (match r with [] => true | _ => false end) _ (Forall_inv Cv) (Forall_inv T)) as P.
+  destruct (write_block _ _); try discriminate; cbn [bind]; [|reflexivity].
+  pose proof (write_rest_no_panic r false false false false (Forall_inv_tail Cv) (Forall_inv_tail T)) as Q.
+  destruct (write_rest _ _ _ _ r); try discriminate; reflexivity.
+Qed.
+
+(* the format's rules, stated by counting *)
+Definition is_si (b : block) := match b with BStreaminfo _ => true | _ => false end.
+Definition is_seektable (b : block) := match b with BSeekTable _ => true | _ => false end.
+Definition is_vorbis (b : block) := match b with BVorbis _ => true | _ => false end.
+Definition is_png (b : block) := match b with BPicture x => pic_type x =? 1 | _ => false end.
+Definition is_icon (b : block) := match b with BPicture x => pic_type x =? 2 | _ => false end.
+Definition countb (f : block -> bool) (l : list block) : N := lenN (filter f l).
+Definition rules_ok (l : list block) : Prop :=
+  match l with
+  | BStreaminfo _ :: r =>
+    countb is_si r = 0 /\ countb is_seektable r <= 1 /\ countb is_vorbis r <= 1 /\
+    countb is_png r <= 1 /\ countb is_icon r <= 1
+  | _ => False
+  end.
+
+Lemma write_rest_rules : forall l sk vc png icon bs, write_rest sk vc png icon l = Ok bs ->
+  countb is_si l = 0 /\ countb is_seektable l + b2n sk <= 1 /\ countb is_vorbis l + b2n vc <= 1 /\
+  countb is_png l + b2n png <= 1 /\ countb is_icon l + b2n icon <= 1.
+Proof.
+  induction l as [|b l IH]; intros sk vc png icon bs W.
+  - unfold countb. cbn. destruct sk, vc, png, icon; cbn; lia.
+  - apply write_rest_cons in W. destruct W as (x & y & sk' & vc' & png' & icon' & _ & Wr & _ & Fl).
+    apply IH in Wr. destruct Wr as (R0 & R1 & R2 & R3 & R4). unfold countb in *.
+    destruct b as [si|n|a|pts|v|c|pic]; try contradiction; cbn [filter is_si is_seektable is_vorbis is_png is_icon].
+    1-5: match type of Fl with _ /\ _ => destruct Fl as [-> Fl] | _ => idtac end;
+         injection Fl as -> -> -> ->; cbn [lenN b2n] in *; repeat split; lia.
+    destruct (N.eqb_spec (pic_type pic) 1) as [E1|E1].
+    + destruct (N.eqb_spec (pic_type pic) 2) as [E2|E2]; [lia|].
+      destruct Fl as [-> Fl]. injection Fl as -> -> -> ->. cbn [lenN b2n] in *. repeat split; lia.
+    + destruct (N.eqb_spec (pic_type pic) 2) as [E2|E2].
+      * destruct Fl as [-> Fl]. injection Fl as -> -> -> ->. cbn [lenN b2n] in *. repeat split; lia.
+      * injection Fl as -> -> -> ->. repeat split; lia.
+Qed.
+
+Theorem write_blocks_rules l bs : write_blocks l = Ok bs -> rules_ok l.
+Proof.
+  unfold write_blocks, rules_ok. destruct l as [|b r]; [discriminate|]. destruct b; try discriminate.
+  intros W. destruct (write_block _ _); cbn [bind] in W; try discriminate.
+  destruct (write_rest false false false false r) as [y| |] eqn:Wr; cbn [bind] in W; try discriminate.
+  apply write_rest_rules in Wr. cbn [b2n] in Wr. rewrite !N.add_0_r in Wr. exact Wr.
+Qed.
+
+(* size rule: no block of an accepted list has a body longer than 2^24 - 1 bytes *)
+Theorem write_blocks_sizes : forall l bs, Forall covered l -> Forall ty_block l -> write_blocks l = Ok bs ->
+  Forall (fun b => exists body, write_body b = Ok body /\ lenN body <= BLOCKSIZE_MAX) l.
+Proof.
+  assert (R : forall l sk vc png icon bs, Forall covered l -> Forall ty_block l ->
+              write_rest sk vc png icon l = Ok bs ->
+              Forall (fun b => exists body, write_body b = Ok body /\ lenN body <= BLOCKSIZE_MAX) l).
+  { induction l as [|b l IH]; intros sk vc png icon bs Cv T W; [constructor|].
+    apply write_rest_cons in W. destruct W as (x & y & sk' & vc' & png' & icon' & Wb & Wr & _ & _).
+    constructor.
+    - destruct (write_block_inv _ b x (Forall_inv Cv) (Forall_inv T) Wb) as (body & ? & ? & _). eauto.
+    - eapply IH; [exact (Forall_inv_tail Cv)|exact (Forall_inv_tail T)|exact Wr]. }
+  intros l bs Cv T W. unfold write_blocks in W. destruct l as [|b r]; [discriminate|]. destruct b; try discriminate.
+  destruct (write_block _ _) as [x| |] eqn:Wb; cbn [bind] in W; try discriminate.
+  destruct (write_rest false false false false r) as [y| |] eqn:Wr; cbn [bind] in W; try discriminate.
+  constructor.
+  - destruct (write_block_inv _ _ x (Forall_inv Cv) (Forall_inv T) Wb) as (body & ? & ? & _). eauto.
+  - eapply R; [exact (Forall_inv_tail Cv)|exact (Forall_inv_tail T)|exact Wr].
 Qed.
 End ListLevel.
+
+(* ---- the known aliasing class: STREAMINFO { md5: Some([0; 16]) } *)
+Definition known_class (b : block) : Prop :=
+  match b with
+  | BStreaminfo si => match si_md5 si with Some m => all_zero m = true | None => False end
+  | _ => False
+  end.
+
+Definition C11_statement_full : Prop :=
+  forall (utf8_valid : list N -> bool) b bs r, covered b -> ty_block b -> write_body b = Ok bs ->
+    read_body utf8_valid (block_type b) (lenN bs) (bs ++ r) = Ok (b, r).
+
+Definition md5_zero_witness : streaminfo :=
+  mkSI 4096 4096 0 0 44100 2 16 0 (Some (zerosN 16)).
+
+Lemma c11_refuted : ~ C11_statement_full.
+Proof.
+  intros H.
+  specialize (H (fun _ => true) (BStreaminfo md5_zero_witness)).
+  assert (W : exists bs, write_body (BStreaminfo md5_zero_witness) = Ok bs).
+  { vm_compute. eexists. reflexivity. }
+  destruct W as [bs W]. specialize (H bs [] I).
+  assert (T : ty_block (BStreaminfo md5_zero_witness)).
+  { cbn. unfold ty_streaminfo. cbn. repeat split; try lia. repeat constructor; unfold byte; lia. }
+  specialize (H T W). revert H. vm_compute in W. apply Ok_inj in W. subst bs. vm_compute. discriminate.
+Qed.
+
+Lemma c11_outside_known (utf8_valid : list N -> bool) b bs r :
+  covered b -> ty_block b -> ~ known_class b -> write_body b = Ok bs ->
+  read_body utf8_valid (block_type b) (lenN bs) (bs ++ r) = Ok (b, r).
+Proof.
+  intros Cv T K W. apply body_write_read; try assumption.
+  destruct b; cbn [canon_block known_class] in *; try exact I.
+  unfold canon_streaminfo. destruct (si_md5 s) as [m|]; [|exact I].
+  destruct (all_zero m); [contradiction K; reflexivity|reflexivity].
+Qed.
